@@ -30,7 +30,7 @@ BOUND = {
     "thorough": "L(6,3) x 6 rotations x 2 settings variants with default names; L(6,3) x 6 rotations x all ordered (i,j) x 5 collision kinds",
 }
 # as-built additions to the bound (kept next to BOUND so that the evidence reports them)
-BOUND = {k: v + "; plus: " + 'object API: every question moved to every other section with add_child between two to_xml() calls (L(4,3) quick / L(5,3) thorough), also renamed to a name already present in the target section' for k, v in BOUND.items()}
+BOUND = {k: v + "; plus: " + '8 custom columns mostly named like computed attributes (bind::nodeset, body::ref, ...) on every row of L(4,3) / L(5,3), valued with another node path or a path of nothing; every question row bound exactly once; object API: every question moved to every other section with add_child between two to_xml() calls (L(4,3) quick / L(5,3) thorough), also renamed to a name already present in the target section' for k, v in BOUND.items()}
 NAMES = ["a", "b", "c", "d", "e", "f", "g"]
 KINDS = ["eq", "case", "count", "other", "meta"]
 CHOICES = [{"list_name": "c", "name": "x", "label": "X"}, {"list_name": "c", "name": "y", "label": "Y"}]
@@ -47,6 +47,9 @@ QT = [
 ]
 
 
+COMPUTED_COLS = ["bind::nodeset", "body::ref", "body::nodeset", "instance::id", "bind::type", "body::appearance", "bind::jr:preload", "instance::custom"]  # (instance::jr:template would turn the node into a template by the author's own wish)
+
+
 def blocks(tier):
     N = 5 if tier == "quick" else 6
     ND = 5 if tier == "quick" else 6
@@ -56,6 +59,9 @@ def blocks(tier):
     nd = sum(1 for _ in forests_upto(ND, 3))
     for fi in range(nd):
         yield ("dev", fi)
+    # custom columns whose name is an attribute the converter computes itself (bind nodeset, control ref, ...)
+    for fi in range(sum(1 for _ in forests_upto(4 if tier == "quick" else 5, 3))):
+        yield ("col", fi)
     # sections/include API: one section included at 1..2 places of the main form
     for fi in range(sum(1 for _ in forests_upto(4 if tier == "quick" else 5, 3))):
         yield ("include", fi)
@@ -85,6 +91,16 @@ def expand(block, tier):
             for sub in itertools.combinations(qs, r):
                 for sec in (0, 1, 2):
                     yield {"f": fj, "include": list(sub), "sec": sec}
+        return
+    if block[0] == "col":
+        nodes = flatten(forest, NAMES)
+        for i in range(n):
+            others = [x["i"] for x in nodes if x["i"] != i][:2]
+            for col in COMPUTED_COLS:
+                for tgt in (*others, None):
+                    yield {"f": fj, "feat": 0, "st": 0, "dev": None, "col": [i, col, tgt]}
+                    if col.startswith("bind::") and nodes[i]["kind"] == "q":
+                        yield {"f": fj, "feat": 3, "st": 0, "dev": None, "col": [i, col, tgt]}
         return
     if block[0] == "api":
         nodes = flatten(forest, NAMES)
@@ -173,6 +189,10 @@ def build(case):
                 del r["trigger"]
             else:
                 del r["trigger"]
+    if case.get("col"):
+        i, col, tgt = case["col"]
+        row = [r for r in rows if "name" in r][i]
+        row[col] = ("/" + "/".join(nodes[tgt]["path"])) if tgt is not None else "/data/nothing_here"
     wb = {"survey": rows, "choices": [dict(c) for c in CHOICES]}
     if case["st"] == 1:
         wb["survey"] = [{"type": "audit", "name": "audit"}, *rows]
@@ -400,7 +420,7 @@ def check_one(case):
             return {"outcome": "reject-expected", "nt": True, "viol": [], "tr": ntr}
         if case["dev"]:
             return {"outcome": "reject-collision", "nt": False, "viol": [], "tr": ntr}
-        return {"outcome": "reject", "nt": False, "viol": [], "tr": ntr, "unexp": True, "why": out.msg[:200]}
+        return {"outcome": "reject", "nt": False, "viol": [], "tr": ntr, "unexp": not case.get("col"), "why": out.msg[:200]}
     viol = []
     if mr:
         viol.append((f"ambiguous-name-accepted:{case['dev'][2]}", f"names={names} dev={case['dev']}"))
@@ -410,5 +430,16 @@ def check_one(case):
         return {"outcome": "ok", "nt": False, "viol": [("unparseable", str(e))], "tr": ntr}
     for kind, detail in closure_problems(obs):
         viol.append((kind, detail))
+    if case.get("col"):
+        # the author's own column is what is held responsible: the signature names it
+        viol = [(f"{k}:col={case['col'][1]}", d) for k, d in viol]
+    if not case["dev"]:
+        # every question row is bound exactly once, at its own path
+        bm = obs.bind_map()
+        for nd in nodes:
+            if nd["kind"] == "q":
+                px = "/" + "/".join(nd["path"])
+                if len(bm.get(px, ())) != 1:
+                    viol.append(("question-row-bind-count" + (f":col={case['col'][1]}" if case.get("col") else ""), f"{px}: {len(bm.get(px, ()))} binds"))
     helpers = any(v.get("count") or v.get("other") for v in info.values()) or bool(obs.template_paths)
     return {"outcome": "ok", "nt": helpers and not viol, "viol": viol, "tr": ntr}
